@@ -289,6 +289,13 @@ struct ReaderRec {
 
 pub fn run(ctx: &Ctx) -> i32 {
     let mon = Mon::new();
+    if ctx.mode.as_deref() == Some("stress") {
+        par_cases(ctx, &mon, "stress", 4, |cc, rng, l| {
+            let cfg = if rng.chance(1, 2) { Cfg::Wa } else { Cfg::Exp };
+            with_cfg!(cfg, TC, { stress::<TC>(ctx, cc, rng, l) });
+        });
+        return finish(ctx, &mon, Spec::new("exploration", "multi-thread stress only (sanitizer sub-run)").need("stress_answers_judged", 100));
+    }
     // ---- exhaustive bound-1: one reader op x one publish, every op kind x instance kind
     let combos = 3 * 7;
     par_cases(ctx, &mon, "dfs", combos * ctx.tier.pick(1, 3), |cc, rng, l| {
@@ -527,9 +534,12 @@ fn run_one<TC: Configuration>(scn: &Scn, strategy: &mut dyn Strategy, l: &mut Lo
                     Ok(None) => l.count("reader_answers_error", 1),
                     Err((obs, msg)) if obs == "harness" => l.inconclusive(msg),
                     Err((obs, _)) if scn.explicit_flush => {
-                        // exploratory only: StorageManager::flush_cache() called directly, i.e. NOT through the
-                        // directory's reader/flush lock, while requests are in flight — outside the property
-                        // (the only flush the directory performs itself, the poller's, takes that lock)
+                        // exploratory only: StorageManager::flush_cache() called directly on a read-only instance's
+                        // manager, i.e. NOT through the directory's reader/flush lock, while a request is in flight.
+                        // The in-flight request (which already holds the old epoch) re-populates the cache with the
+                        // records of its view while the epoch slot stays empty; the next request reads the new epoch
+                        // from storage and meets those records.  The directory's own flush (poller) takes the lock
+                        // exactly to exclude this, so it is outside the property; counted, not judged.
                         l.count(&format!("exploratory_explicit_unlocked_flush_{obs}_diagnostic"), 1);
                     }
                     Err((obs, msg)) => {
